@@ -19,7 +19,7 @@ CONSTANTS
   Defect_McpStickyRefs = FALSE
   Defect_McpRcLostAtSnapshot = FALSE
   HistMax = 2
-  MaxLog = 4
+  MaxLog = 3
   MaxOps = 100000
   Defect_StaleSnapshotTail = FALSE
   Defect_NonAtomicCapture = FALSE
